@@ -614,6 +614,23 @@ def wl_routes(run, rng, idx):
     run.note_class(name, len(M.vertices), len(M.delta))
 
 
+def wl_repo_tests(run, rng, idx):
+    """the repository's own automata tests, run with the FSA invariant attached
+    (every automaton the suite builds and edits is judged at each quiescent
+    point; the tests' own outcomes are not ours to judge)."""
+    from .. import pytest_run
+    before = run.monitor("views-coherent").evals
+    run.current_case = {"repo_tests": "testing/test_automata.py"}
+    _state["history"] = {"repo_tests": "testing/test_automata.py"}
+    out = pytest_run.run_repo_tests(run, ["test_automata.py"])
+    _state["history"] = None
+    run.extra["repo_tests"] = {"ran": len(out),
+                               "passed": sum(1 for v in out.values() if v == "passed"),
+                               "invariant_evaluations": run.monitor("views-coherent").evals - before}
+    if out:
+        run.note_class("repo-tests", "test_automata.py")
+
+
 WORKLOADS = [
     Workload("dense-depth3", wl_dense, quick=2500, thorough=0),
     Workload("dense-depth3-all", wl_dense_block, quick=0,
@@ -623,6 +640,7 @@ WORKLOADS = [
     Workload("kbmag-text", wl_kbmag, quick=300, thorough=5000),
     Workload("builtin-files", wl_builtin, quick=18, thorough=180),
     Workload("routes", wl_routes, quick=150, thorough=2000),
+    Workload("repo-tests-under-monitors", wl_repo_tests, quick=1, thorough=1),
 ]
 EXHAUSTIVE = {"quick": False, "thorough": False}
 
